@@ -67,15 +67,15 @@ def parseScan (s : String) : Option (Outcome ScanOut × String) :=
 
 /-! cow -/
 
-def sortByKey (l : List (Key × Sid)) : List (Key × Sid) :=
+def sortByKey (l : List (Nat × Nat)) : List (Nat × Nat) :=
   l.foldl (fun acc x =>
     let (lo, hi) := acc.span (fun y => y.1 ≤ x.1)
     lo ++ x :: hi) []
 
-def showMap (l : List (Key × Sid)) : String :=
+def showMap (l : List (Nat × Nat)) : String :=
   if l.isEmpty then "-" else "+".intercalate ((sortByKey l).map fun (k, v) => s!"{k}:{v}")
 
-def parseMap (s : String) : Option (List (Key × Sid)) :=
+def parseMap (s : String) : Option (List (Nat × Nat)) :=
   if s == "-" then some [] else
   (s.splitOn "+").mapM fun e =>
     match e.splitOn ":" with
@@ -83,10 +83,10 @@ def parseMap (s : String) : Option (List (Key × Sid)) :=
     | _ => none
 
 inductive COp
-  | replace (batch : List (Key × Bool))
+  | replace (batch : List (Nat × Bool))
   | begin
   | done (i : Nat)
-  | gc (sids : List Sid)
+  | gc (sids : List Nat)
   deriving Repr
 
 /-- `R1:1+2:0` (key:1 = new searcher, key:0 = nil), `S`, `E3`, `G4+5` / `G-` -/
